@@ -58,6 +58,13 @@ def addr_texts(rng, pattern):
 def special_addr(rng):
     k = rng.random()
     v4 = "%d.%d.%d.%d" % (rng.choice([0, 1, 10, 127, 128, 200, 255]), rng.randrange(256), rng.randrange(256), rng.randrange(256))
+    if k < 0.06:
+        # octets with leading zeros (decimal all the same), alone and inside the IPv6 forms
+        return rng.choice(["", "", "0::", "0::ffff:"]) + ".".join(rng.choice(["%d", "%02d", "%03d"]) % int(o) for o in v4.split("."))
+    if k < 0.1:
+        # a text that denotes no address (the server does not write such, a confused one might): whatever the daemon makes of it,
+        # every line about that client still carries a well-formed address text
+        return rng.choice(["1.2.3", "1:2:3:zz", "host.example.net", "192.0.2.9.1", "1.2.3.256", "1.2.3.4x", "12345::1", "1:2:3:4:5:6:7:8:9", "g::1", "1.2.3.", "-1.2.3.4", "0x10.1.2.3"])
     if k < 0.4:
         return v4
     if k < 0.6:
@@ -245,7 +252,12 @@ def _worker(a):
                 viol.append(("unknown-id", "unknown-id", "message for an id the server never announced: %r" % ln))
                 continue
             addr, port = announced[c["id"]]
-            if proto.addr_value(c["addr"]) != proto.addr_value(addr):
+            want_addr = proto.announced_value(addr)
+            if want_addr == "ANY":
+                stats["lines_about_clients_announced_with_no_address"] = stats.get("lines_about_clients_announced_with_no_address", 0) + 1
+                if proto.addr_value(c["addr"]) is None:
+                    viol.append(("address", "address-unreadable", "client %d was announced as %r; the message about it carries %r, which is no address text: %r" % (c["id"], addr, c["addr"], ln)))
+            elif proto.addr_value(c["addr"]) != want_addr:
                 viol.append(("address", "address", "client %d was announced as %s, message carries %s: %r" % (c["id"], addr, c["addr"], ln)))
             if c["addr"].startswith(":"):
                 viol.append(("address-colon", "address-colon", "address text begins with ':': %r" % ln))
